@@ -1,0 +1,24 @@
+//go:build verif
+
+// Ghost lemma functions for the verifier under /verif (never called; compiled
+// only with -tags verif). Their contracts are in zz_verif_contracts.go.
+
+package nodeenrollment
+
+import (
+	"context"
+
+	"google.golang.org/protobuf/proto"
+)
+
+// lemmaEncryptDecrypt: a message encrypted for key source s is recovered
+// exactly by a receiver r whose current or previous (key, key id) pair equals
+// s's current pair.
+func lemmaEncryptDecrypt(ctx context.Context, msg proto.Message, s, r X25519KeyProducer, out proto.Message) (encErr, decErr error) {
+	ct, encErr := EncryptMessage(ctx, msg, s)
+	if encErr != nil {
+		return encErr, nil
+	}
+	decErr = DecryptMessage(ctx, ct, r, out)
+	return nil, decErr
+}
